@@ -344,6 +344,7 @@ func c19GelfConfig(endpoint string, lim int, f [6][]byte) *gelf.Config {
 
 func execC19Gelf(t *hx.Toks) string {
 	lim := t.Int()
+	failFirst := t.Bool()
 	var f [6][]byte
 	for i := range f {
 		f[i] = t.Bytes()
@@ -352,13 +353,8 @@ func execC19Gelf(t *hx.Toks) string {
 	if t.Err != nil || !t.Done() {
 		return "bad-case"
 	}
-	ln, err := net.Listen("tcp", "127.0.0.1:0")
-	if err != nil {
-		return "err-io"
-	}
-	defer ln.Close()
 	got := make(chan []byte, 4)
-	go func() {
+	serve := func(ln net.Listener) {
 		for {
 			c, err := ln.Accept()
 			if err != nil {
@@ -368,17 +364,38 @@ func execC19Gelf(t *hx.Toks) string {
 			c.Close()
 			got <- b
 		}
-	}()
+	}
+	ln, err := net.Listen("tcp", "127.0.0.1:0")
+	if err != nil {
+		return "err-io"
+	}
+	addr := ln.Addr().String()
+	if failFirst {
+		ln.Close() // the first attempt of the first batch finds nobody listening
+	} else {
+		go serve(ln)
+	}
+	defer func() { ln.Close() }()
 	p := &gelf.Plugin{}
-	p.Start(c19GelfConfig(ln.Addr().String(), lim, f), c19Params(1))
+	p.Start(c19GelfConfig(addr, lim, f), c19Params(1))
 	defer p.Stop()
 	var sb strings.Builder
 	sb.WriteString(strconv.Itoa(len(batches)))
 	wd := pipeline.WorkerData(nil)
-	for _, b := range batches {
+	for i, b := range batches {
 		batch, evs, ok := c19MkBatch(b)
 		if !ok {
 			return "bad-case"
+		}
+		if i == 0 && failFirst {
+			// connection refused: out returns an error after a one second sleep, the batcher retries
+			if err := p.VerifOut(&wd, batch); err == nil {
+				return "err-io"
+			}
+			if ln, err = net.Listen("tcp", addr); err != nil {
+				return "err-io"
+			}
+			go serve(ln)
 		}
 		if err := p.VerifOut(&wd, batch); err != nil {
 			return "err-io"
